@@ -952,7 +952,7 @@ func main() {
 		}
 		return
 	}
-	rng := NewRng(o.Seed)
+	rng := NewRng(o.Seed*1000003 + 1) // consecutive seeds of the shared SplitMix64 are one step apart: spread them
 	w := NewCaseWriter(o.Out, "cases", header, "mism", 10)
 	w.Type = "kase"
 	w.Rule = "value cases: n >= 2 and a value was returned; derivative cases: some gradient slot of some output is non-zero; formula cases: n >= 2"
